@@ -4,18 +4,34 @@
 #  tie    : tools/tr_c18_statics.py (every run)
 #  search : harness/c18_threads.c under ThreadSanitizer, N threads x own context x seeded API scripts, results
 #           compared with the sequential run
-import os, sys, json, re, hashlib
+import os, sys, json, re, hashlib, time
 import vlib
 
 sys.path.insert(0, os.path.join(vlib.VERIF, 'tools'))
-import tr_c18_statics, gen_c17_scen as G
+import tr_c18_statics, gen_c17_scen as G, gen_c17_csrc as CS
 
 LEVEL = 'proof'
 TSAN_ENV = {'TSAN_OPTIONS': 'halt_on_error=0 report_signal_unsafe=0 exitcode=66 history_size=4'}
 
 
+def void_type_fixed():
+    """fixes/C18-3.patch (c2mir's shared VOID_TYPE written by set_type_layout) present in the tree under test?  Until the
+    coordinator has committed it, C units that make pointers to VOID_TYPE (alloca, &&label) stay out of the thread sets."""
+    try:
+        txt = open(os.path.join(vlib.REPO, 'c2mir', 'c2mir.c'), errors='replace').read()
+    except OSError:
+        return True
+    return re.search(r'VOID_TYPE\s*=\s*\{\s*\.raw_size\s*=\s*MIR_SIZE_MAX', txt) is None
+
+
+VOID_TYPE_UNITS = {'control', 'alloca'}
+
+
 def build():
-    return vlib.build_harness('c18_threads', ['c18_threads.c'], variant='tsan', units=('mir', 'mir-gen', 'c2mir'))
+    # harness/c17_api.h is #included, not listed as a source: its hash goes into the flags so that an edit rebuilds
+    hh = vlib.file_hash([os.path.join(vlib.VERIF, 'harness', 'c17_api.h')])
+    return vlib.build_harness('c18_threads', ['c18_threads.c'], variant='tsan', units=('mir', 'mir-gen', 'c2mir'),
+                              extra_flags=['-DC17_API_H_HASH=0x' + hh[:8]])
 
 
 def run_set(exe, threads, reps, mode, alloc='default', timeout=600):
@@ -83,20 +99,37 @@ def focused_sets(rng):
     sets.append(('interp', [interp_script() for _ in range(4)], 3))
     # C compiler
     def c2m_script(k):
-        L = ['init', 'c2m_init']
+        L = ['init'] + ['file %s %s' % (hn, H(CS.HEADERS[hn])) for hn in sorted(CS.HEADERS)] + ['c2m_init']
         fs = []
         for i in range(k, k + 4):
             x = nm()
             L.append('c2m u%s.c %s' % (x, H(G.C_POOL[i % len(G.C_POOL)].replace('@N@', x))))
             fs.append('f' + x)
+        units = [u for u in CS.UNITS if u[0] not in G.EXCLUDE_TAGS]
+        for i in range(k, k + 5):
+            tag, src, need = units[i % len(units)]
+            x = nm()
+            extra = [['v'], ['asm'], ['obj'], ['d']][i % 4]
+            if 'd' in extra and not G.debug_ok(src):
+                extra = ['w']
+            L.append('c2mo u%s.c %s %s' % (x, ','.join([o for o in [need.replace('@N@', x)] if o] + extra),
+                                           H(src.replace('@N@', x))))
+            fs.append('f' + x)
         L += ['c2m_finish', 'load', 'link interp'] + ['interp %s 6' % f for f in fs] + ['finish']
         return L
-    sets.append(('c2mir', [c2m_script(k) for k in (0, 2, 4, 6)], 2))
+    sets.append(('c2mir', [c2m_script(k) for k in (0, 3, 6, 9)], 2))
     # binary / text IO
-    def io_script():
-        x = nm()
-        return ['init', 'scan ' + H(G.MIR_POOL[1].replace('@N@', x)), 'api 3 1', 'write', 'fwrite', 'output', 'finish']
-    sets.append(('io', [io_script() for _ in range(4)], 3))
+    def io_script(k):
+        x, y = nm(), nm()
+        big = G.stress_module(rng, y, rng.choice([60, 150]))
+        rd, rd2 = (('read', 'fread'), ('fread', 'read'))[k % 2]
+        return ['init', 'scan ' + H(G.MIR_POOL[1].replace('@N@', x)), 'api 3 1', 'scan ' + H(big), 'fwmod 1', 'wmod 2', 'fwrite',
+                'output', 'outmod 2', 'outitems 0', 'write', 'finish',
+                # a second context of the same thread reads the image back (twice: both reader variants) and runs it
+                'init', rd, 'load', 'link interp', 'interp f%s 5' % x, 'interp apif3 4', 'interp f%s 3' % y, 'write', 'finish',
+                'init', rd2, 'load', 'gen_init', 'opt %d' % (k % 4), 'link gen', 'call f%s 2' % y, 'call f%s 7' % x, 'gen_finish',
+                'finish']
+    sets.append(('io', [io_script(k) for k in range(4)], 2))
     # code pages: all contexts take their holders from one arena (neighbouring pages), publish code that ends exactly at
     # the end of a page, patch and run it; every protection change must stay inside the context's own pages
     def code_script(iface):
@@ -142,18 +175,32 @@ def run(chk):
         'ThreadSanitizer (gcc 12 libtsan) for races through memory not named by a static object; the OS scheduler chooses the interleavings actually run',
         'harness/c18_threads.c, harness/c17_api.h']
     rng = chk.rng('threads')
+    G.tree_flags(vlib.REPO)
+    G.EXCLUDE_TAGS = set() if void_type_fixed() else set(VOID_TYPE_UNITS)
+    if G.EXCLUDE_TAGS:
+        chk.notes.append('tree without fixes/C18-3.patch: C units %s (alloca / label addresses -> shared VOID_TYPE) left out of '
+                         'the thread sets' % sorted(G.EXCLUDE_TAGS))
     sets = [(name, th, reps) for name, th, reps in focused_sets(rng)]
     nrand = 14 if quick else 1000
     for _ in range(nrand):
         nt = rng.choice([2, 3, 4, 6, 8])
-        th = [G.Scen(rng, [0]).lines for _ in range(nt)]
+        th = [G.Scen(rng, [0], threads=True).lines for _ in range(nt)]
         sets.append((rng.choice(['random', 'random@arena']), th, rng.choice([1, 2, 3])))
     found = {}
     nrep = 0
+    nrun = 0
     for name, th, reps in sets:
+        if found and time.time() - chk.t0 > (150 if quick else 1200):
+            # failing inputs are in hand and the time budget is used up (a mutated tree can make every set hang)
+            chk.notes.append('search stopped after %d of %d thread sets: failures found and time budget used' % (nrun, len(sets)))
+            break
+        nrun += 1
         alloc = 'arena' if name.endswith('@arena') else 'default'
-        rc, out, err, lines = run_set(exe, th, reps, 'par', alloc)
+        t1 = time.time()
         rc2, out2, err2, _ = run_set(exe, th, reps, 'seq', alloc)
+        tseq = time.time() - t1
+        # the parallel run gets a bound derived from the sequential one: interference can also show as a hang
+        rc, out, err, lines = run_set(exe, th, reps, 'par', alloc, timeout=max(120, 25 * tseq))
         chk.count(lines, nontrivial=len(th) >= 2)
         chk.dist('sets', name)
         chk.dist('threads', len(th))
@@ -171,7 +218,11 @@ def run(chk):
                                         'unsynchronised conflicting access between threads using different contexts: %s (%s)' % (
                                             r['location'] or '/'.join(r['frames']), r['kind'])))
         incomplete = [t for t in range(len(th)) if ('T%d DONE' % t) not in out and ('T%d FAILED' % t) not in out]
-        if rc not in (0, 66) or 'DEADLYSIGNAL' in err or incomplete:
+        if rc == 124:
+            found.setdefault('hang:' + name, (lines, dict(set=name, rc=rc, sequential_s=round(tseq, 1), stderr=err[-1500:]),
+                                              'parallel run of independent contexts did not terminate (the sequential run of '
+                                              'the same scripts took %.1f s)' % tseq))
+        elif rc not in (0, 66) or 'DEADLYSIGNAL' in err or incomplete:
             found.setdefault('crash:' + name, (lines, dict(set=name, rc=rc, stderr=err[-1500:]),
                                                'parallel run of independent contexts crashed (rc %d)' % rc))
         for o, which in ((out + err, 'parallel'), (out2 + err2, 'sequential')):
